@@ -57,6 +57,11 @@ impl Cache {
         self.push_proc_pri(proc, true);
     }
 
+    /// make the process known to the cache without storing it
+    pub fn register_proc(&self, proc: &Arc<Process>) {
+        self.push_proc_pri(proc, false);
+    }
+
     pub fn procs(&self) -> Vec<Arc<Process>> {
         let mut procs = Vec::new();
         for (_, proc) in self.procs.iter() {
